@@ -353,7 +353,8 @@ def gen_form(rng: random.Random, cfg=None) -> Form:
             if ap:
                 r.cells["appearance"] = rng.choice(ap)
         if rng.random() < cfg["p_parameters"]:
-            prm = {"text": ["rows=3"], "image": ["max-pixels=640"], "audio": ["quality=low", "quality=normal"],
+            prm = {"text": ["rows=3", "rows=8", "rows=5", "rows=12"], "image": ["max-pixels=640", "app=com.example.cam", "max-pixels=320 app=org.odk.draw.x"],
+                   "audio": ["quality=low", "quality=normal"],
                    "geopoint": ["capture-accuracy=5 warning-accuracy=20", "allow-mock-accuracy=true"],
                    "geotrace": ["allow-mock-accuracy=false"], "range": ["start=1 end=9 step=2", "start=0.5 end=3 step=0.5"],
                    }.get(base_t)
@@ -426,7 +427,12 @@ def gen_form(rng: random.Random, cfg=None) -> Form:
     if langs and rng.random() < 0.6:
         f.settings["default_language"] = rng.choice(langs)
     if cfg["audit"] and rng.random() < cfg["audit"]:
-        f.survey.append(Row("q", "audit", "audit", {"parameters": "track-changes=true"}))
+        groups = [rng.choice(["location-priority=balanced location-min-interval=10 location-max-age=60", "location-max-age=300 location-priority=high-accuracy location-min-interval=0",
+                              "location-priority=no-power location-min-interval=60 location-max-age=60"]),
+                  rng.choice(["track-changes=true", "track-changes=false"]), rng.choice(["identify-user=true", "identify-user=false"]), "track-changes-reasons=on-form-edit"]
+        chosen = [g for g in groups if rng.random() < 0.5] or ["track-changes=true"]
+        rng.shuffle(chosen)
+        f.survey.append(Row("q", "audit", "audit", {"parameters": " ".join(chosen)}))
     return f
 
 
